@@ -89,8 +89,144 @@ IfStep(e) ==   \* -> [ok, ifl, stack]
 IntrOps == {"enable", "disable", "are_enabled", "enable_and_hlt", "wi_enter", "body", "body_end", "wi_exit"}
 
 -----------------------------------------------------------------------------
+(* C16: system-register wrappers.  e.pre = register content before the call (preset by the
+   harness), e.instrs = the privileged instructions that trapped, e.mask = the bits the
+   wrapper's type models, e.p = arguments, e.r = returned values. *)
+IsRead(i) == i.m \in {"mov_from_cr", "mov_from_dr", "rdmsr"}
+IsWrite(i) == i.m \in {"mov_to_cr", "mov_to_dr", "wrmsr"}
+
+(* every trapped instruction addresses the register the wrapper is named after *)
+Targets(e) ==
+    \A k \in 1 .. Len(e.instrs) :
+       LET i == e.instrs[k] IN
+       CASE e.rk = "cr"  -> i.m \in {"mov_from_cr", "mov_to_cr"} /\ i.a = W(e.rn)
+         [] e.rk = "dr"  -> i.m \in {"mov_from_dr", "mov_to_dr"} /\ i.a = W(e.rn)
+         [] e.rk = "msr" -> i.m \in {"rdmsr", "wrmsr"} /\ i.a = e.ri       \* ECX = MSR number
+         [] OTHER -> TRUE
+
+(* architectural effect of the sequence: a read returns the current content, a write replaces it *)
+RECURSIVE Replay(_, _, _)
+Replay(cur, ins, k) ==
+    IF k > Len(ins) THEN [ok |-> TRUE, v |-> cur]
+    ELSE IF IsRead(ins[k]) THEN (IF ins[k].c = cur THEN Replay(cur, ins, k + 1) ELSE [ok |-> FALSE, v |-> cur])
+    ELSE IF IsWrite(ins[k]) THEN Replay(ins[k].c, ins, k + 1)
+    ELSE [ok |-> FALSE, v |-> cur]
+
+WrittenVals(ins) == LET ks == { k \in 1 .. Len(ins) : IsWrite(ins[k]) }
+                        RECURSIVE sq(_)
+                        sq(k) == IF k > Len(ins) THEN << >>
+                                 ELSE (IF k \in ks THEN << ins[k].c >> ELSE << >>) \o sq(k + 1)
+                    IN sq(1)
+
+AddrFieldW == MaskW(12, 52)
+StarMsr == <<129, 49152, 0, 0>>
+XcrValid(f) ==
+    LET b(n) == Bit(f, n) = 1 IN
+    /\ b(0)
+    /\ (b(2) => b(1))
+    /\ (b(3) <=> b(4))
+    /\ ((b(5) \/ b(6) \/ b(7)) => (b(2) /\ b(5) /\ b(6) /\ b(7)))
+
+RegContract(e) ==
+    LET api == e.api
+        pre == e.pre
+        m == e.mask
+        p1 == e.p[1]  p2 == e.p[2]  p3 == e.p[3]  p4 == e.p[4]
+        wv == WrittenVals(e.instrs)
+        flags(x) == AndW(x, m)
+        keep(x) == AndW(x, NotW(m))
+        frame(x) == AndW(x, AddrFieldW)
+        low12(x) == AndW(x, LowMask(12))
+        ok == e.k = "ok"
+        upd == UpdateVal(pre, m, p1, p2)
+        none == e.instrs = << >>
+        oneI(mn) == Len(e.instrs) = 1 /\ e.instrs[1].m = mn
+    IN
+    CASE api \in {"Cr0::read", "Cr4::read", "Efer::read", "Dr6::read", "Dr7::read"} ->
+            ok /\ wv = << >> /\ e.r = << flags(pre) >>
+      [] api \in {"Cr0::read_raw", "Cr4::read_raw", "Efer::read_raw", "Dr6::read_raw", "Dr7::read_raw",
+                  "Cr2::read_raw", "Dr0::read", "Dr1::read", "Dr2::read", "Dr3::read", "Msr::read",
+                  "FsBase::read", "GsBase::read", "KernelGsBase::read", "LStar::read", "Pat::read",
+                  "SFMask::read"} ->
+            ok /\ wv = << >> /\ e.r = << pre >>
+      [] api \in {"Cr0::write", "Cr4::write", "Efer::write", "Dr7::write"} ->
+            ok /\ wv = << TypedWriteVal(pre, m, p1) >>       \* unmodelled bits preserved
+      [] api \in {"Cr0::write_raw", "Cr4::write_raw", "Efer::write_raw", "Dr7::write_raw",
+                  "Dr0::write", "Dr1::write", "Dr2::write", "Dr3::write", "Msr::write",
+                  "FsBase::write", "GsBase::write", "KernelGsBase::write", "LStar::write",
+                  "Pat::write", "SFMask::write"} ->
+            ok /\ wv = << p1 >>
+      [] api \in {"Cr0::update", "Cr4::update", "Efer::update", "Dr7::update"} ->
+            ok /\ e.r = << flags(pre) >> /\ wv = << upd >>
+      [] api = "SFMask::update" -> ok /\ e.r = << pre >> /\ wv = << AndW(OrW(pre, p1), NotW(p2)) >>
+      [] api = "Cr2::read" -> wv = << >> /\ (IF Canonical(pre) THEN ok /\ e.r = << pre >> ELSE e.k = "err")
+      [] api = "Cr3::read" -> ok /\ wv = << >> /\ e.r = << frame(pre), flags(pre) >>
+      [] api \in {"Cr3::read_raw", "Cr3::read_pcid"} -> ok /\ wv = << >> /\ e.r = << frame(pre), low12(pre) >>
+      [] api \in {"Cr3::write", "Cr3::write_pcid", "Cr3::write_raw"} -> ok /\ wv = << OrW(p1, p2) >>
+      [] api = "Cr3::write_pcid_no_flush" -> ok /\ wv = << OrW(OrW(p1, p2), PowW(63)) >>
+      [] api = "Cr3::update" -> ok /\ e.r = << frame(pre), flags(pre) >> /\ wv = << OrW(p1, p2) >>
+      [] api = "Cr3::update_pcid" -> ok /\ e.r = << frame(pre), low12(pre) >> /\ wv = << OrW(p1, p2) >>
+      [] api = "Cr3::update_pcid_no_flush" ->
+            ok /\ e.r = << frame(pre), low12(pre) >> /\ wv = << OrW(OrW(p1, p2), PowW(63)) >>
+      [] api = "Star::read_raw" -> ok /\ wv = << >> /\ e.r = << W(pre[4]), W(pre[3]) >>
+      [] api = "Star::read" ->
+            ok /\ wv = << >> /\ e.r = << W(pre[4] + 16), W(pre[4] + 8), W(pre[3]), W(pre[3] + 8) >>
+      [] api = "Star::write_raw" -> ok /\ wv = << << 0, 0, p2[1], p1[1] >> >>
+      [] api = "Star::write" ->
+            LET cs_ret == p1[1]  ss_ret == p2[1]  cs_call == p3[1]  ss_call == p4[1]
+                valid == /\ cs_ret - 16 = ss_ret - 8 /\ cs_call = ss_call - 8
+                         /\ ss_ret % 4 = 3 /\ ss_call % 4 = 0
+            IN IF valid THEN ok /\ wv = << << 0, 0, cs_call, ss_ret - 8 >> >>
+                             \* ... and the next typed read returns the four selectors written
+                             /\ << ss_ret - 8 + 16, ss_ret - 8 + 8, cs_call, cs_call + 8 >> = << cs_ret, ss_ret, cs_call, ss_call >>
+               ELSE e.k = "err" /\ wv = << >>                \* rejected without writing
+      [] api \in {"UCet::read", "SCet::read"} -> ok /\ wv = << >> /\ e.r = << flags(pre), AlignDownV(pre, 12) >>
+      [] api \in {"UCet::write", "SCet::write"} -> ok /\ wv = << OrW(p1, p2) >>
+      [] api \in {"UCet::update", "SCet::update"} ->
+            ok /\ e.r = << flags(pre), AlignDownV(pre, 12) >> /\ wv = << OrW(p1, p2) >>
+      [] api = "ApicBase::read" -> ok /\ wv = << >> /\ e.r = << frame(pre), flags(pre) >>
+      [] api = "ApicBase::read_raw" -> ok /\ wv = << >> /\ e.r = << frame(pre), pre >>
+      [] api = "ApicBase::write" ->
+            ok /\ wv = << OrW(OrW(AndW(keep(pre), NotW(AddrFieldW)), p2), p1) >>
+      [] api = "ApicBase::write_raw" -> ok /\ wv = << OrW(p2, p1) >>
+      [] api = "XCr0::read" -> ok /\ none /\ e.r = << flags(pre) >>
+      [] api = "XCr0::read_raw" -> ok /\ none /\ e.r = << pre >>
+      [] api = "XCr0::write" ->
+            IF XcrValid(p1)
+            THEN ok /\ oneI("xsetbv") /\ e.instrs[1].a = ZeroW /\ e.instrs[1].c = OrW(keep(pre), p1)
+            ELSE e.k = "panic" /\ none                          \* rejected without writing
+      [] api = "XCr0::write_raw" -> ok /\ oneI("xsetbv") /\ e.instrs[1].a = ZeroW /\ e.instrs[1].c = p1
+      [] api \in {"SS::set_reg", "DS::set_reg", "ES::set_reg", "FS::set_reg", "GS::set_reg"} ->
+            ok /\ oneI("mov_to_sreg") /\ e.instrs[1].a = p2 /\ e.instrs[1].c = p1
+      [] api = "CS::set_reg" -> ok /\ oneI("retfq") /\ e.instrs[1].c = p1
+      [] api = "load_tss" -> ok /\ oneI("ltr") /\ e.instrs[1].a = p1
+      [] api = "GS::swap" -> ok /\ oneI("swapgs")
+      [] api \in {"CS::get_reg", "SS::get_reg", "DS::get_reg", "ES::get_reg", "FS::get_reg", "GS::get_reg",
+                  "GS::read_base", "FS::read_base"} -> ok /\ none /\ e.r = << pre >>
+      [] api \in {"GS::write_base", "FS::write_base"} -> ok /\ none /\ e.r = << p1 >>
+      [] OTHER -> FALSE
+
+RegOK(e) ==
+    /\ Targets(e)
+    /\ (e.rk \in {"cr", "dr", "msr"} =>
+           LET rp == Replay(e.pre, e.instrs, 1) IN rp.ok /\ rp.v = e.post)
+    /\ RegContract(e)
+
+FsBaseMsr == << 256, 49152, 0, 0 >>
+GsBaseMsr == << 257, 49152, 0, 0 >>
+
+-----------------------------------------------------------------------------
 Check(e) ==
     CASE e.op = "port_block" -> PortBlockOK(e)
+      [] e.op = "reg" -> RegOK(e)
+      [] e.op = "pat_default" -> e.v = << 1030, 7, 1030, 7 >>     \* power-on PAT: WB WT UC- UC WB WT UC- UC
+      [] e.op = "seg_base_msr" ->
+            /\ e.r = e.want /\ Len(e.instrs) = 2
+            /\ e.instrs[1].m = "rdmsr" /\ e.instrs[1].a = FsBaseMsr
+            /\ e.instrs[2].m = "rdmsr" /\ e.instrs[2].a = GsBaseMsr
+      [] e.op = "rflags_rt" ->     \* the ID flag (bit 21) written is the ID flag read back
+            /\ Bit(e.r[2], 21) # Bit(e.r[1], 21) /\ Bit(e.r[3], 21) = Bit(e.r[1], 21)
+      [] e.op = "mxcsr_rt" -> e.got = e.v /\ e.ind = e.v
       [] e.op = "port_eq" -> PortEqOK(e)
       [] e.op = "port_multi" -> PortMultiOK(e)
       [] e.op = "flush" -> OneInvlpg(e.instrs, e.addr)
